@@ -40,6 +40,8 @@ pub trait BTy: Copy + PartialOrd + SampleUniform + 'static {
     const DIGIT_BYTES: usize;
     fn from_le(b: &[u8]) -> Self;
     fn to_le_vec(&self) -> Vec<u8>;
+    /// the low 64 bits of the bit pattern (no allocation; used by the sweep kernel)
+    fn low_u64(&self) -> u64;
     fn gen<R: RngCore + ?Sized>(rng: &mut R) -> Self;
     fn fill<R: RngCore + ?Sized>(v: &mut [Self], via: FillVia, rng: &mut R) -> Result<(), ()>;
 }
@@ -68,6 +70,16 @@ macro_rules! impl_bty {
                 }
                 out
             }
+            fn low_u64(&self) -> u64 {
+                const DB: usize = core::mem::size_of::<$D>();
+                let mut out = 0u64;
+                let mut i = 0;
+                while i < N && i * DB < 8 {
+                    out |= (self.digits()[i] as u64) << (8 * DB * i);
+                    i += 1;
+                }
+                out
+            }
             fn gen<R: RngCore + ?Sized>(rng: &mut R) -> Self {
                 rng.gen()
             }
@@ -84,6 +96,9 @@ macro_rules! impl_bty {
             }
             fn to_le_vec(&self) -> Vec<u8> {
                 self.to_bits().to_le_vec()
+            }
+            fn low_u64(&self) -> u64 {
+                self.to_bits().low_u64()
             }
             fn gen<R: RngCore + ?Sized>(rng: &mut R) -> Self {
                 rng.gen()
@@ -132,6 +147,11 @@ pub trait TyObj: Sync + Send {
     fn gen_range(&self, low: &[u8], high: &[u8], inclusive: bool, rng: &mut crate::simrng::SimRng, dynamic: bool) -> Vec<u8>;
     fn sample_single(&self, low: &[u8], high: &[u8], inclusive: bool, by_ref: bool, rng: &mut crate::simrng::SimRng, dynamic: bool) -> Vec<u8>;
     fn uniform(&self, low: &[u8], high: &[u8], inclusive: bool, ctor: Ctor) -> Box<dyn Sampler>;
+    /// lean loop for complete word-space sweeps: for every word in from..to arm the RNG with it, make one call of
+    /// the entry point, and hand (word, low 64 bits of the result, requests made, length of the first request) to
+    /// `sink`; stops early when `sink` returns false. Err((word, budget_exhausted)) if a call panicked.
+    #[allow(clippy::too_many_arguments)]
+    fn sweep_kernel(&self, low: &[u8], high_api: &[u8], entry: crate::sweep::Entry, from: u64, to: u64, rng: &mut crate::simrng::SimRng, sink: &mut dyn FnMut(u64, u64, u32, u32) -> bool) -> Result<(), (u64, bool)>;
     /// fill a slice of `len` elements (initialised from `init`), returning (result, element bytes)
     fn fill(&self, len: usize, init: u8, via: FillVia, rng: &mut crate::simrng::SimRng, dynamic: bool) -> (Result<(), ()>, Vec<Vec<u8>>);
 }
@@ -252,6 +272,39 @@ where
             (Ctor::Sampler, true) => SamplerImpl::Raw(<T::Sampler as UniformSampler>::new_inclusive(&l, &h)),
         };
         Box::new(s)
+    }
+    fn sweep_kernel(&self, low: &[u8], high_api: &[u8], entry: crate::sweep::Entry, from: u64, to: u64, rng: &mut crate::simrng::SimRng, sink: &mut dyn FnMut(u64, u64, u32, u32) -> bool) -> Result<(), (u64, bool)> {
+        use crate::sweep::Entry;
+        use std::panic::{catch_unwind, AssertUnwindSafe};
+        let (l, h) = (T::from_le(low), T::from_le(high_api));
+        let sampler: Option<Uniform<T>> = match catch_unwind(AssertUnwindSafe(|| match entry {
+            Entry::UniInc => Some(Uniform::new_inclusive(l, h)),
+            Entry::UniExc => Some(Uniform::new(l, h)),
+            _ => None,
+        })) {
+            Ok(s) => s,
+            Err(_) => return Err((from, false)),
+        };
+        for word in from..to {
+            rng.sweep_arm(word as u32);
+            let res = catch_unwind(AssertUnwindSafe(|| match entry {
+                Entry::UniInc | Entry::UniExc => sampler.as_ref().unwrap().sample(&mut *rng),
+                Entry::SingleInc => <T::Sampler as UniformSampler>::sample_single_inclusive(l, h, &mut *rng),
+                Entry::SingleExc => <T::Sampler as UniformSampler>::sample_single(l, h, &mut *rng),
+                Entry::GenRangeInc => rng.gen_range(l..=h),
+            }));
+            match res {
+                Ok(v) => {
+                    let st = rng.sweep.as_ref().unwrap();
+                    let (rq, fl) = (st.requests, st.first_len);
+                    if !sink(word, v.low_u64(), rq, fl) {
+                        return Ok(());
+                    }
+                }
+                Err(payload) => return Err((word, payload.is::<crate::simrng::BudgetExceeded>())),
+            }
+        }
+        Ok(())
     }
     fn fill(&self, len: usize, init: u8, via: FillVia, rng: &mut crate::simrng::SimRng, dynamic: bool) -> (Result<(), ()>, Vec<Vec<u8>>) {
         let initv = T::from_le(&vec![init; T::BYTES]);
